@@ -119,10 +119,14 @@ class Motion:
             data = np.column_stack([y['w_b'], y['f_b']])
         else:
             h = np.diff(t)
-            nodes = (t[:-1, None] + 0.5 * h[:, None] * (_GLX[None, :] + 1)).ravel()
-            y = self.eval(nodes)
-            sig = np.column_stack([y['w_b'], y['f_b']]).reshape(len(h), len(_GLX), 6)
-            inc = (sig * _GLW[None, :, None]).sum(axis=1) * 0.5 * h[:, None]
+            inc = np.empty((len(h), 6))
+            B = 20000                          # blocks of intervals: bounds memory on Schuler-length runs
+            for s0 in range(0, len(h), B):
+                hb = h[s0:s0 + B]
+                nodes = (t[s0:s0 + len(hb), None] + 0.5 * hb[:, None] * (_GLX[None, :] + 1)).ravel()
+                y = self.eval(nodes)
+                sig = np.column_stack([y['w_b'], y['f_b']]).reshape(len(hb), len(_GLX), 6)
+                inc[s0:s0 + len(hb)] = (sig * _GLW[None, :, None]).sum(axis=1) * 0.5 * hb[:, None]
             # "before" sample: integral over an equal interval preceding the first stamp
             n0 = t[0] - h[0] + 0.5 * h[0] * (_GLX + 1)
             y0 = self.eval(n0)
